@@ -69,7 +69,7 @@ theorem usable_after_rejected {s : St} {h : Int} {tx : TxIn} (hS : StateOK s tru
 /-- The full statement — `StateOK` is preserved by every operation — is NOT proved here: the balance
     and delegatee-power bounds are consequences of the global supply bound (C02 conservation) and of
     the stake bookkeeping (C11), the limiter clause of BeginBlock's reset (needs `1 ≤ maxValidatorCnt`
-    and positive delegatee powers), the reward-height clause of the phase discipline. -/
+    and non-negative delegatee powers), the reward-height clause of the phase discipline. -/
 def usable_after_statement : Prop :=
   ∀ (g : Genesis) (s : St), Reachable g s → ∀ (exec : Bool) (h : Int), StateOK s exec h →
     ∀ tx : TxIn, StateOK (handleTx s exec h tx).1 exec h
@@ -141,17 +141,25 @@ def unstakeB : TxIn :=
   { sigOk := true, from_ := B, to := B, gas := 2, price := 10, type := TRX_UNSTAKING, payload := .unstaking h32 }
 
 /-- **maxValidatorCnt ≤ 0** (0 from genesis, negative from a governance proposal — `mergeParams` treats
-    0 as "unset"): the limiter's base power is 0; with ≥ 3 validators a delegation panics on the index
-    `powerObjs[maxValidatorCnt-1]` … -/
+    0 as "unset"): with ≥ 3 validators a delegation panics on the index `powerObjs[maxValidatorCnt-1]`. -/
 theorem witness_maxValidatorCnt_index :
     (handleTx (sLim 0) true 1 delegateToB).2.panic = "limiter: index out of range (maxValidatorCnt-1 < 0)" ∧
     (handleTx (sLim (-1)) true 1 delegateToB).2.panic = "limiter: index out of range (maxValidatorCnt-1 < 0)" := by
   decide
 
-/-- … and an unstaking divides by the zero base power. -/
-theorem witness_limiter_base_zero :
+/-- REPAIRED (d28c085).  Before the repair an unstaking in this state divided by the zero base power
+    ("limiter: division by zero (updatable)"; reproduced on the real node with all validators slashed
+    to power 0).  With `_ratio = 0` for a non-positive base the same unstaking is now validated without
+    a panic: the limiter accepts it (the updatable ratio 0 exceeds nothing) and validation succeeds. -/
+theorem limiter_base_zero_no_panic :
     let s := (sLim 0).setAcct true { addr := B, bal := 100 * RIGO }
-    (handleTx s true 1 unstakeB).2.panic = "limiter: division by zero (updatable)" := by decide
+    (s.limiter.base = 0 ∧ s.lastVals.length = 3) ∧
+    (∀ site, s.limiter.check B 10 (-10) false ≠ .panic site) ∧
+    (∀ site, validateUnstaking s true unstakeB ≠ .error (.panic site)) := by
+  intro s
+  refine ⟨by decide, ?_, ?_⟩
+  · exact check_noPanic (Or.inr ⟨by decide, by decide⟩) _ _ _ _
+  · exact validateUnstaking_noPanic (by decide) rfl (fun _ => Or.inr ⟨by decide, by decide⟩)
 
 /-- **FeeSane dropped** (governance gas price ≥ 2^192): `gas × price + amount` wraps to 0, the balance
     check passes for an account that owns nothing, and `AmountToPower(amount)` panics. -/
